@@ -357,6 +357,14 @@ pub fn build_recorded(cfg: &Config) -> (Outcome, Vec<Recorded>) {
     (out, rec)
 }
 
+/// A QRCode value assembled by hand from the public fields: `QRCode::default(size)` plus the module data; version,
+/// level, mask and mode stay `None`. Renderers are given "a QR code": they must work from its size and modules.
+pub fn hand_assembled(qr: &QRCode) -> QRCode {
+    let mut h = QRCode::default(qr.size);
+    h.data = qr.data;
+    h
+}
+
 /// Module values of the size x size square.
 pub fn matrix_of(qr: &QRCode) -> Matrix {
     let n = qr.size;
